@@ -54,6 +54,13 @@ func decorators() []decorator {
 		decorator{name: "hint(\"\")", kind: 'h', val: optionalEmpty, apply: func(e error) error { return psqlerr.WithHint(e, "") }},
 		decorator{name: "detail(\"\")", kind: 'd', val: optionalEmpty, apply: func(e error) error { return psqlerr.WithDetail(e, "") }},
 	)
+	// text that would mean something to a formatter, and a second function at a (file, line) used before
+	ds = append(ds,
+		decorator{name: "hint(97% full %s)", kind: 'h', val: "97% full %s", apply: func(e error) error { return psqlerr.WithHint(e, "97% full %s") }},
+		decorator{name: "detail(like '%d_%' 100%)", kind: 'd', val: "like '%d_%' 100%", apply: func(e error) error { return psqlerr.WithDetail(e, "like '%d_%' 100%") }},
+		decorator{name: fmt.Sprintf("source(f0.go,%d,otherFn)", srcLines[0]), kind: 'f', file: "f0.go", line: strconv.Itoa(int(srcLines[0])), function: "otherFn",
+			apply: func(e error) error { return psqlerr.WithSource(e, "f0.go", srcLines[0], "otherFn") }},
+	)
 	// decorations with an empty part: whether an empty value counts as "set" is not asserted
 	// (tolerant expectations), but the message must stay well-formed
 	ds = append(ds,
@@ -64,7 +71,7 @@ func decorators() []decorator {
 	return ds
 }
 
-var errBases = []string{"boom", "é x", strings.Repeat("long message ", 16), ""}
+var errBases = []string{"boom", "é x", strings.Repeat("long message ", 16), "", "100% %s %d %!v(MISSING)"}
 
 // buildErr applies the shape (indices into decorators()) to a base error.
 func buildErr(ds []decorator, base string, shape []int) error {
